@@ -132,7 +132,10 @@ def outcomeJson (r : Outcome (List OTok) × List Uri) : Json :=
 def kindOf17 (s : String) : Kind :=
   match s with
   | "arrayItem" => .arrayItem | "nestedMember" => .nestedMember | "xmlData" => .xmlData
-  | "anyDictLeaf" => .anyDictLeaf | "anyXml" => .anyXml | "anyHtml" => .anyHtml | _ => .unicode
+  | "anyDictLeaf" => .anyDictLeaf | "anyXml" => .anyXml | "anyHtml" => .anyHtml
+  | "multiMember" => .multiMember | "integer" => .integer | "byteArray" => .byteArray
+  | "enumValue" => .enumValue | "iterableItem" => .iterableItem | "headerMember" => .headerMember
+  | "hrefTarget" => .hrefTarget | _ => .unicode
 
 /-- what user code receives for the leaf `tag` of a request parsed with `kw` -/
 def deliverJson (j : Json) : Json :=
